@@ -538,3 +538,27 @@ def run(ctx):
                   "model": RL.coq_show(ctx, "corr", "run_ecase", cterms[i], header=HEADER)}, concrete=False)
     if not built:
         ctx.obligations_failed("executed the property statement against references.expand on all generated documents")
+
+
+def replay(ctx, data):
+    """./check C16 --replay file: run the stored document again (statement search and model)."""
+    r = data.get("replay", {})
+    case = r.get("case", r)
+    t = case.get("tree")
+    if t is None:
+        print(json.dumps(data, indent=1)[:2000])
+        return
+    o = run_impl(t)
+    ctx.case("replay", True)
+    print("observed:", json.dumps({"exc": o["exc"], "unchanged": o.get("unchanged"), "created": len(o["created"]),
+                                   "valid_before": o.get("valid_before"), "valid_after": o.get("valid_after")}))
+    for key, what in statement_violations(t, o):
+        print("statement violated:", key, what)
+        ctx.fail(f"C16:{key}", what, {"kind": "impl-vs-statement", "tree": t, "observed": {"exc": o["exc"], "after": o.get("after_raw")}})
+    if o["exc"] is None and o["valid_before"] and not o["valid_after"] and case.get("tags", {}).get("same_rule", True):
+        print("statement violated: validity-lost", o.get("invalid_why"))
+        ctx.fail("C16:validity-lost", "the document validated before expansion and does not after", {"kind": "impl-vs-statement", "tree": t})
+    bad, errors = RL.coq_compare(ctx, "replay", "run_ecase", [coq_case(t, o["store_before"])], [coq_want(o)], header=HEADER, eqb="eobs_eqb")
+    print("model agrees with implementation:", not bad and not errors)
+    if bad or errors:
+        ctx.fail("corr:expand", "model and implementation disagree on expand", {"kind": "broken-correspondence", "case": case}, concrete=False)
